@@ -14,7 +14,7 @@ EXPLANATION = ('The arithmetic bound on gaps between trigger firings (thread-loc
                'cache\'s trigger period, as an expression of the constructor\'s parameters, is capacity / 3; (R10.3) in every '
                'public operation of the plain cache, a consultation of the (thread-local, shared) countdown that fires is followed '
                'by maintenance of the directory, so no firing is consumed without maintaining.')
-FLOORS = {'R10.1': 4, 'R10.2': 2, 'R10.3': 2}
+FLOORS = {'R10.1': 6, 'R10.2': 2, 'R10.3': 2}
 
 
 def r10_1(ctx):
@@ -35,6 +35,15 @@ def r10_1(ctx):
                         'the trigger is consulted before the first step of every publish (%d publish-body events)' % len(first) if consult and not bad else
                         'a write can publish without consulting the maintenance trigger',
                         path=witness_path(q, bad[0], blocked=consult) if bad else []))
+        # every write counts: no Ok exit of set/put is reachable without a consultation (an early "already there" exit
+        # that skips it lets a thread re-put hot keys forever without ever maintaining)
+        oks = q.terminals(lambda ev: ev['k'] == 'ret' and ev.get('variant') == 'Ok')
+        r0 = q.reach_fwd([q.g.entry], blocked=consult)
+        skip = [t for t in oks if t in r0]
+        out.append(inst('R10.1', 'cachedir.%s|every successful write consults' % role, bool(oks) and not skip,
+                        'no Ok exit is reachable without consulting the maintenance trigger (%d Ok exits)' % len(oks) if oks and not skip else
+                        'a write can return Ok without having consulted the maintenance trigger: such writes are not counted toward the period',
+                        path=path_brief(q.witness(skip[0], blocked=consult) or [])[-12:] if skip else []))
         fired = [e for e in gate_edges(q) if any(VAL[q.E[e][2]['val']][2] == p for p in T.trigger_consult_paths)]
         lists = [e for e in q.prim_edges('list_dir') if path_class(ctx, q, arg_role(q.E[e][2], 'path')) == 'Base']
         until = {q.E[e][0] for e in first}
